@@ -379,7 +379,7 @@ def run(p: Program, rep: Report, tier: str) -> None:
                           "request for a non-ASCII path (/café) is routed on ASGI and answered 404 on WSGI")
     if n47 == 0:
         rep.undecide("R4.7", "no text-level use of PATH_INFO found in baize.wsgi")
-    rep.require_instances("R4.7", 4)
+    rep.require_instances("R4.7", 3)  # 4 on the pinned tree; Files and Pages may share one lookup method
 
 
 # guard atoms that are gateway plumbing: they may appear in the guard set of any effect on one side only
